@@ -1086,7 +1086,7 @@ class Interp:
         name = e.id
         if fr.has(name):
             v = fr.lookup(name)
-            if isinstance(v, (VOptTerm, VJ)) and v.res is not None:
+            if isinstance(v, VOptTerm) and v.res is not None:
                 return v.res      # already resolved on this path
             return v
         if self.mode == 'spec':
